@@ -33,6 +33,7 @@ struct Marker<'a> {
     probe_n: &'a mut usize,
     fn_probes: Vec<usize>,
     return_points: usize,
+    ret_ty: Option<syn::Type>,
 }
 
 fn callee_key(e: &Expr) -> Option<(String, Vec<String>)> {
@@ -55,6 +56,14 @@ struct Finder<'a> { pats: &'a [(String, String)], found: Vec<(usize, Vec<String>
 impl<'a, 'ast> syn::visit::Visit<'ast> for Finder<'a> {
     fn visit_block(&mut self, _b: &'ast syn::Block) { /* nested blocks are handled on their own */ }
     fn visit_expr_closure(&mut self, _c: &'ast syn::ExprClosure) {}
+    fn visit_stmt_macro(&mut self, sm: &'ast syn::StmtMacro) {
+        let k = norm(&format!("{}!", sm.mac.path.to_token_stream()));
+        for (i, (p, _)) in self.pats.iter().enumerate() { if *p == k { self.found.push((i, vec![], None)); } }
+    }
+    fn visit_expr_macro(&mut self, em: &'ast syn::ExprMacro) {
+        let k = norm(&format!("{}!", em.mac.path.to_token_stream()));
+        for (i, (p, _)) in self.pats.iter().enumerate() { if *p == k { self.found.push((i, vec![], None)); } }
+    }
     fn visit_expr(&mut self, e: &'ast Expr) {
         if let Some((k, args)) = callee_key(e) {
             for (i, (p, _)) in self.pats.iter().enumerate() {
@@ -79,6 +88,14 @@ fn is_diverging_tail(e: &Expr) -> bool {
     match e { Expr::Return(_) | Expr::Break(_) | Expr::Continue(_) => true, Expr::Macro(m) => { let p = m.mac.path.to_token_stream().to_string(); p == "unreachable" || p == "panic" || p == "unimplemented" || p == "todo" } _ => false }
 }
 impl<'a> Marker<'a> {
+    // `loop-start N` / `loop-end N` templates: spliced at the beginning / end of the body of loop N
+    fn loop_body_hints(&mut self, n: usize, body: &mut syn::Block) {
+        if let Some(t) = self.spec.loop_end.get(&n).cloned() {
+            // before a trailing `k += 1` style increment?  no: at the very end of the body
+            let m = self.marker(&t, vec![], "loop-end"); body.stmts.push(m);
+        }
+        if let Some(t) = self.spec.loop_start.get(&n).cloned() { let m = self.marker(&t, vec![], "loop-start"); body.stmts.insert(0, m); }
+    }
     fn marker(&mut self, template: &str, args: Vec<String>, kind: &str) -> Stmt {
         let id = self.hint_n; self.hint_n += 1;
         self.hints.push(HintInst { id, template: template.to_string(), args, kind: kind.to_string() });
@@ -95,7 +112,8 @@ impl<'a> Marker<'a> {
         self.return_points += 1;
         let m = self.marker(&self.spec.ret_hint.clone(), vec!["__ret".to_string()], "return");
         let p = self.probe();
-        match p { Some(p) => parse_quote!({ let __ret = #inner; #m #p __ret }), None => parse_quote!({ let __ret = #inner; #m __ret }) }
+        let letst: Stmt = match &self.ret_ty { Some(t) => parse_quote!(let __ret: #t = #inner;), None => parse_quote!(let __ret = #inner;) };
+        match p { Some(p) => parse_quote!({ #letst #m #p __ret }), None => parse_quote!({ #letst #m __ret }) }
     }
     fn mark_tail(&mut self, e: &mut Expr) {
         match e {
@@ -118,7 +136,8 @@ impl<'a> Marker<'a> {
                 self.return_points += 1;
                 let m = self.marker(&self.spec.ret_hint.clone(), vec!["__ret".to_string()], "return");
                 let p = self.probe();
-                b.stmts.push(parse_quote!(let __ret = #e;));
+                let letst: Stmt = match &self.ret_ty { Some(t) => parse_quote!(let __ret: #t = #e;), None => parse_quote!(let __ret = #e;) };
+                b.stmts.push(letst);
                 b.stmts.push(m);
                 if let Some(p) = p { b.stmts.push(p); }
                 b.stmts.push(Stmt::Expr(parse_quote!(__ret), None));
@@ -214,6 +233,7 @@ impl<'a> VisitMut for Marker<'a> {
         let n = self.loop_n; self.loop_n += 1;
         visit_mut::visit_expr_while_mut(self, w);
         let lit = proc_macro2::Literal::usize_unsuffixed(n);
+        self.loop_body_hints(n, &mut w.body);
         if let Some(p) = self.probe() { w.body.stmts.push(p); }
         w.body.stmts.insert(0, parse_quote!(__vx_loop!(#lit);));
     }
@@ -221,6 +241,7 @@ impl<'a> VisitMut for Marker<'a> {
         let n = self.loop_n; self.loop_n += 1;
         visit_mut::visit_expr_loop_mut(self, w);
         let lit = proc_macro2::Literal::usize_unsuffixed(n);
+        self.loop_body_hints(n, &mut w.body);
         if let Some(p) = self.probe() { w.body.stmts.push(p); }
         w.body.stmts.insert(0, parse_quote!(__vx_loop!(#lit);));
     }
@@ -311,7 +332,7 @@ impl<'a> Gen<'a> {
             rules::alpha_rename(block, &mut self.rules);
             let mut hints = vec![];
             {
-                let mut mk = Marker { spec: &spec, loop_n: 0, hint_n: self.hint_base, hints: &mut hints, probes: self.probes, probe_n: &mut self.probe_n, fn_probes: vec![], return_points: 0 };
+                let mut mk = Marker { spec: &spec, loop_n: 0, hint_n: self.hint_base, hints: &mut hints, probes: self.probes, probe_n: &mut self.probe_n, fn_probes: vec![], return_points: 0, ret_ty: match &sig.output { syn::ReturnType::Type(_, t) if !matches!(**t, syn::Type::ImplTrait(_)) => Some((**t).clone()), _ => None } };
                 mk.visit_block_mut(block);
                 let has_ret = !matches!(sig.output, syn::ReturnType::Default);
                 if has_ret { mk.mark_block_tail(block); }
@@ -376,6 +397,21 @@ impl<'a> Gen<'a> {
                             let tyname = imp.self_ty.to_token_stream().to_string().replace(' ', "");
                             let mut kept = vec![];
                             let mut any_fn = false;
+                            // rule T: associated types of a trait impl emitted as inherent are substituted (`Self::Item` -> its definition)
+                            let assoc: Vec<(String, syn::Type)> = imp.items.iter().filter_map(|ii| if let syn::ImplItem::Type(t) = ii { Some((t.ident.to_string(), t.ty.clone())) } else { None }).collect();
+                            if inherent_as.is_some() && !assoc.is_empty() {
+                                struct S<'a> { assoc: &'a [(String, syn::Type)] }
+                                impl<'a> VisitMut for S<'a> {
+                                    fn visit_type_mut(&mut self, t: &mut syn::Type) {
+                                        visit_mut::visit_type_mut(self, t);
+                                        if let syn::Type::Path(p) = t { if p.qself.is_none() && p.path.segments.len() == 2 && p.path.segments[0].ident == "Self" {
+                                            let n = p.path.segments[1].ident.to_string();
+                                            if let Some((_, ty)) = self.assoc.iter().find(|(a, _)| *a == n) { *t = ty.clone(); }
+                                        } }
+                                    }
+                                }
+                                S { assoc: &assoc }.visit_item_impl_mut(imp);
+                            }
                             for ii in imp.items.drain(..) {
                                 match ii {
                                     syn::ImplItem::Fn(mut f) => {
@@ -631,6 +667,13 @@ fn main() {
         ("lines", J::n(tl.len())),
     ]);
     std::fs::write(format!("{}.json", pos[2]), side.to_string()).unwrap();
+    for f in &gen.fns {
+        if f.contract_only { continue; }
+        let spec = &gen.specs[&f.path];
+        let n_tpl = spec.before_call.len() + spec.after_call.len() + spec.after_let.len();
+        let inst: usize = f.hint_kinds.iter().filter(|(k, _)| *k == "before-call" || *k == "after-call" || *k == "after-let").map(|(_, v)| *v).sum();
+        if n_tpl > 0 && inst < n_tpl { eprintln!("vx: note: {} has {} call/let hint templates but only {} instantiations (an anchor matches nothing?)", f.path, n_tpl, inst); }
+    }
     eprintln!("vx: unit {} functions={} (contract-only {}) hints={} probes={} outlined={:?}", unit.name, gen.fns.len(), gen.fns.iter().filter(|f| f.contract_only).count(), gen.fns.iter().map(|f| f.hints).sum::<usize>(), gen.probe_n - 1, gen.rules.outlined);
 }
 
